@@ -7,6 +7,10 @@ tokens) are first grouped into options (`tokenize`), then folded into the config
 Options that only affect what is printed or how files are loaded — `-q`, `-v`, `--mmap`, `--stats`,
 `--color X`, `-A X` — are recognised and have *no field* in the result: the model of the driver
 (`RQ.Push.push`) cannot depend on them.  `getopts` itself is modelled, not verified.
+
+`getopts` refuses an option that is declared `optflag`/`optopt` and given more than once ("Option 'quiet'
+given more than once", exit status 1, nothing touched); only `-v` (`optflagmulti`) and `-A` (`optmulti`)
+may repeat.  `parse` therefore first checks `SingleOnce` and only then folds the options (`parseOpts`).
 -/
 namespace RQ.Args
 open RQ RQ.Push
@@ -16,6 +20,7 @@ inductive Tok
   | backup (x : String)
   | backupCount (x : String)
   | fuzz (n : String)
+  | patchDir (d : String)
   | dryRun
   | all
   | quiet
@@ -40,6 +45,7 @@ def tokenize : List String → List Tok
     else if x == "--backup" || x == "-b" then .backup y :: tokenize r
     else if x == "--backup-count" then .backupCount y :: tokenize r
     else if x == "-F" || x == "--fuzz" then .fuzz y :: tokenize r
+    else if x == "-p" || x == "--patch-directory" then .patchDir y :: tokenize r
     else if x == "--color" then .color y :: tokenize r
     else if x == "-A" then .analyze y :: tokenize r
     else if x == "--dry-run" then .dryRun :: tokenize (y :: r)
@@ -64,46 +70,89 @@ def Tok.isPresentation : Tok → Bool
   | .analyze x => validAnalysis x
   | _ => false
 
+/-- the options `getopts` accepts only once (`optflag`: `-a`, `--dry-run`, `--stats`, `-q`, `--mmap`; `optopt`:
+`-b`/`--backup`, `--backup-count`, `-F`/`--fuzz`, `--color`, `--threads`, `-p`/`--patch-directory`), each with a key of its own (the value
+given does not matter: `-F 1 -F 2` repeats `-F`); `none`: may repeat (`-v` is `optflagmulti`, `-A` is `optmulti`)
+or is not an option -/
+def Tok.singleKey : Tok → Option Nat
+  | .threads _ => some 0
+  | .backup _ => some 1
+  | .backupCount _ => some 2
+  | .fuzz _ => some 3
+  | .dryRun => some 4
+  | .all => some 5
+  | .patchDir _ => some 10
+  | .quiet => some 6
+  | .mmap => some 7
+  | .stats => some 8
+  | .color _ => some 9
+  | .verbose | .analyze _ | .free _ | .unknown _ => none
+
+/-- no option that `getopts` accepts only once is given more than once -/
+def SingleOnce (toks : List Tok) : Prop := (toks.filterMap Tok.singleKey).Nodup
+
+instance (toks : List Tok) : Decidable (SingleOnce toks) :=
+  inferInstanceAs (Decidable (toks.filterMap Tok.singleKey).Nodup)
+
+/-- some option that `getopts` accepts only once is given more than once -/
+def dupSingle (toks : List Tok) : Bool := !decide (SingleOnce toks)
+
 structure Inv where
   cfg : Cfg := {}
   threads : Nat := 1
-  /-- an option or option value that is refused before anything is read (unknown option, bad value of
-  `--backup`, `--backup-count`, `--color`) -/
+  /-- an option or option value that is refused before anything is read (unknown option, an option other than
+  `-v`/`-A` given more than once, bad value of `--backup`, `--backup-count`, `--color`) -/
   bad : Bool := false
   /-- a value that is only looked at when there is something to apply (`-A <unknown analysis>`, a
   `--threads` value that is not a number): refused then, not noticed when all patches are applied -/
   badLate : Bool := false
+  /-- the goal was given as an argument (`push 3`, `push x.patch`): the FIRST free argument decides, whatever else
+  is on the command line — `-a` before or after it, further arguments -/
+  goalFromArg : Bool := false
 deriving Repr
 
-def natOf (s : String) : Nat := s.toNat?.getD 0
+/-- `str::parse::<usize>()` on an option value or argument: an optional `+`, at least one ASCII digit, nothing else,
+value below 2^64 (so `+2` is 2, while `2x`, `1_0`, `-1`, the empty string and `18446744073709551616` are not numbers) -/
+def usizeOf (s : String) : Option Nat := Series.parseUsize s.toUTF8.toList
 
-def parse : List Tok → Inv → Inv
+def natOf (s : String) : Nat := (usizeOf s).getD 0
+
+/-- the options folded into the configuration, left to right (repetitions are dealt with by `parse`) -/
+def parseOpts : List Tok → Inv → Inv
   | [], i => i
   | .threads n :: r, i =>
-    match n.toNat? with
-    | some k => parse r { i with threads := k }
-    | none => parse r { i with badLate := true }
+    match usizeOf n with
+    | some k => parseOpts r { i with threads := k }
+    | none => parseOpts r { i with badLate := true }
   | .backup x :: r, i =>
-    if x == "always" then parse r { i with cfg := { i.cfg with backup := .always } }
-    else if x == "never" then parse r { i with cfg := { i.cfg with backup := .never } }
-    else if x == "onfail" then parse r { i with cfg := { i.cfg with backup := .onfail } }
+    if x == "always" then parseOpts r { i with cfg := { i.cfg with backup := .always } }
+    else if x == "never" then parseOpts r { i with cfg := { i.cfg with backup := .never } }
+    else if x == "onfail" then parseOpts r { i with cfg := { i.cfg with backup := .onfail } }
     else { i with bad := true }
   | .backupCount x :: r, i =>
-    if x == "all" then parse r { i with cfg := { i.cfg with backupCount := none } }
-    else match x.toNat? with
-      | some n => parse r { i with cfg := { i.cfg with backupCount := some n } }
+    if x == "all" then parseOpts r { i with cfg := { i.cfg with backupCount := none } }
+    else match usizeOf x with
+      | some n => parseOpts r { i with cfg := { i.cfg with backupCount := some n } }
       | none => { i with bad := true }
-  | .fuzz n :: r, i => parse r { i with cfg := { i.cfg with fuzz := natOf n } }
-  | .dryRun :: r, i => parse r { i with cfg := { i.cfg with dryRun := true } }
-  | .all :: r, i => parse r { i with cfg := { i.cfg with goal := .all } }
-  | .quiet :: r, i | .verbose :: r, i | .mmap :: r, i | .stats :: r, i => parse r i
-  | .color x :: r, i => if validColor x then parse r i else { i with bad := true }
-  | .analyze x :: r, i => if validAnalysis x then parse r i else parse r { i with badLate := true }
+  | .fuzz n :: r, i => parseOpts r { i with cfg := { i.cfg with fuzz := natOf n } }
+  | .dryRun :: r, i => parseOpts r { i with cfg := { i.cfg with dryRun := true } }
+  | .patchDir d :: r, i => parseOpts r { i with cfg := { i.cfg with patchesDir := d.toUTF8.toList } }
+  | .all :: r, i => if i.goalFromArg then parseOpts r i else parseOpts r { i with cfg := { i.cfg with goal := .all } }
+  | .quiet :: r, i | .verbose :: r, i | .mmap :: r, i | .stats :: r, i => parseOpts r i
+  | .color x :: r, i => if validColor x then parseOpts r i else { i with bad := true }
+  | .analyze x :: r, i => if validAnalysis x then parseOpts r i else parseOpts r { i with badLate := true }
   | .free x :: r, i =>
-    match x.toNat? with
-    | some n => parse r { i with cfg := { i.cfg with goal := .count n } }
-    | none => parse r { i with cfg := { i.cfg with goal := .upTo x.toUTF8.toList } }
+    if i.goalFromArg then parseOpts r i
+    else match usizeOf x with
+      | some n => parseOpts r { i with cfg := { i.cfg with goal := .count n }, goalFromArg := true }
+      | none => parseOpts r { i with cfg := { i.cfg with goal := .upTo x.toUTF8.toList }, goalFromArg := true }
   | .unknown _ :: _, i => { i with bad := true }
+
+/-- `getopts` + `cmd::run`: an invocation that repeats an option declared `optflag`/`optopt` is refused by
+`getopts`, before `run` looks at any value (an unknown option is refused by `getopts` as well: which of the two it
+reports does not matter here, both are `bad`); otherwise the options are folded into the configuration -/
+def parse (toks : List Tok) (i : Inv) : Inv :=
+  if dupSingle toks then { i with bad := true } else parseOpts toks i
 
 /-- `cmd::run` + `cmd_push` for a parsed invocation: option values are validated in two places, before
 the quilt state is read and after it is known that there is something to apply -/
